@@ -435,6 +435,10 @@ fn witnesses() -> Vec<Case> {
     out
 }
 
+pub fn cases_for_c04(thorough: bool) -> Vec<Case> {
+    witnesses().into_iter().chain(e4()).chain(e5(if thorough { 5 } else { 4 })).collect()
+}
+
 pub fn run(ctx: &Ctx) -> Report {
     let thorough = ctx.thorough();
     let mut report = Report::new();
